@@ -17,6 +17,7 @@ property, and that definition is run on the real generator + rustc in every chec
 -/
 import VarlinkVerif.Model.GenEmit
 import VarlinkVerif.Lemmas.GenEmit
+import VarlinkVerif.Lemmas.GenPaths
 
 namespace VV
 open Gen
@@ -60,6 +61,46 @@ theorem C09_total_and_clash_free_partial (i : IDL) (hwf : WellFormed i) (hsafe :
 theorem C09_safe_implies_finite (i : IDL) (hsafe : safeB i = true) : finiteB i = true :=
   finite_of_safeOptCycle i (safeB_spec hsafe).2.2.2.2.2.2.1
 
+/-- The guard is not stronger than necessary: for every definition (whose typedefs are structs or
+    enums, as the grammar has it) `Safe` holds **iff** the skeleton is clean — each of the ten components
+    is also *necessary*: an unrawable name does reach a panicking identifier constructor, a reserved
+    snake-case name does become a `fn`, an anonymous error-parameter type is emitted twice, … -/
+theorem C09_safe_is_exactly_clean (i : IDL) (hdefs : typedefsAreDefs i = true) :
+    safeB i = true ↔ (emit i).clean = true :=
+  safeB_iff_clean i hdefs
+
+/-- hence, on well-formed definitions, the model predicts "compiles" exactly for the Safe ones -/
+theorem C09_verdict_ok_iff_safe (i : IDL) (hwf : WellFormed i) (hdefs : typedefsAreDefs i = true) :
+    verdict i = .ok ↔ safeB i = true := by
+  obtain ⟨_, hres, _, hsib⟩ := hwf
+  have hs : (i.allSiblings.all fun l => !(hasDup l)) = true := by
+    simp only [siblingDistinctB, Bool.and_eq_true] at hsib
+    exact hsib.2
+  rw [safeB_iff_clean i hdefs]
+  simp only [verdict, Emission.clean, hs, hres, Bool.and_eq_true]
+  constructor
+  · intro h
+    repeat' split at h
+    all_goals simp_all
+  · intro h
+    obtain ⟨⟨⟨⟨⟨⟨⟨c1, c2⟩, c3⟩, c4⟩, c5⟩, c6⟩, c7⟩, c8⟩ := h
+    simp [c1, c2, c3, c4, c5, c6, c7, c8]
+
+/-- **What class S6 (`path-dup`) consists of**: for every well-formed definition, if no member is named
+    `Call` and no field or variant name contains `_`, the names the generator derives by joining with
+    `_` (`T_a_b`, `Foo_Args_x`, `Foo_Args`, `Foo_Reply`, `Call_Foo`) are pairwise distinct.  So S6 can only
+    fail through an underscore in a field name (`a_b` against `a`→`b`) or a member named `Call`
+    (`Call_Args`, `Call_<field>`): joining is injective on `_`-free components (`joinUS_inj`). -/
+theorem C09_path_dup_needs_underscore_or_Call (i : IDL) (hwf : WellFormed i)
+    (hcall : "Call" ∉ i.memberNames) (hplain : ∀ f ∈ i.fieldNames, '_' ∉ f.toList) : safePaths i = true :=
+  safePaths_of_plain_names i hwf.1 hwf.2.2.2 hcall hplain
+
+example :
+    let i : IDL := { name := "org.example.p", types := [("T", .struct [("a", .struct [("b", .enum ["x", "y"])]), ("ab", .opt (.struct []))])],
+                     methods := [⟨"Args", [("t", .arr (.struct [("u", .int)]))], [("t", .ref "T")]⟩, ⟨"Reply", [], []⟩], errors := [⟨"Gone", []⟩] }
+    WellFormed i ∧ "Call" ∉ i.memberNames ∧ (∀ f ∈ i.fieldNames, '_' ∉ f.toList) ∧ safePaths i = true := by
+  decide
+
 /-- non-vacuity: a definition with every type constructor, anonymous types, keyword-like field and
     variant names, recursion through an array, methods and errors satisfies every hypothesis -/
 def exampleSafe : IDL :=
@@ -72,7 +113,7 @@ def exampleSafe : IDL :=
                 ⟨"Union", [], []⟩],
     errors := [⟨"NotFound", [("why", .opt .string), ("s", .map (.struct []))]⟩] }
 
-example : WellFormed exampleSafe ∧ safeB exampleSafe = true := by decide
+example : WellFormed exampleSafe ∧ safeB exampleSafe = true ∧ typedefsAreDefs exampleSafe = true := by decide
 
 /-! ### the excluded classes: for each, a well-formed definition on which the unguarded statement fails -/
 
